@@ -74,20 +74,4 @@ theorem C03_generated_nothing_invented (tag : Str) (x tl : Option Str) (children
   C03_nothing_invented schema Types.conv tag x tl children ci c fields items cj hfind hcls hg
     (gen_spec_nodup ci c hcls) (typesConv_none schema.enums) h n w hm hw
 
-/-! ### non-vacuity: a concrete document of the generated schema that the reader accepts -/
-
-def exStatusDoc : Tree :=
-  .node "STATUS".toList none none
-    [.node "CODE".toList (some "0012".toList) none [], .node "SEVERITY".toList (some "INFO".toList) none []]
-
-/-- the reader accepts it and the instance holds `code = 12` (text `0012`) and `severity = "INFO"` -/
-def acceptedWithCode12 : PyM Node → Bool
-  | .ok (.agg 331 fields []) =>
-    (match lookup "code".toList fields with | some (.val (.int 12)) => true | _ => false) &&
-    (match lookup "severity".toList fields with | some (.val (.str s)) => s == "INFO".toList | _ => false)
-  | _ => false
-
-theorem exStatusDoc_accepted : acceptedWithCode12 (fromEtree schema Types.conv exStatusDoc) = true := by
-  decide +kernel
-
 end Ofx.Gen
